@@ -102,7 +102,8 @@ func (e *env) runRandom(j job) {
 		w.logf("actor %s joins %s as %s %v (model says: %s)", a.c.ID, group, user, ps.cfg, want)
 		m, ok := a.c.Join(group, user, password)
 		if !ok {
-			w.inconclusive("no reply to a join")
+			closed, cerr := a.c.Closed()
+			w.inconclusive(fmt.Sprintf("no reply to a join (as %s, model %s; socket closed=%v %v; last events %s)", user, want, closed, cerr, brief(news(a.c, max(0, a.c.EventCount()-4)))))
 			return false
 		}
 		got := m.Str("kind") == "join"
@@ -167,6 +168,10 @@ func (e *env) runRandom(j job) {
 		a := s.a
 		if w.locked && r.IntN(3) == 0 {
 			if !w.ensureLocked(false) {
+				return
+			}
+		} else if !w.locked && r.IntN(8) == 0 {
+			if !w.ensureLocked(true) {
 				return
 			}
 		}
